@@ -31,15 +31,19 @@ type flowState struct {
 	top   bool
 	conds map[ast.Expr]bool
 	calls map[*ast.CallExpr]bool
+	asgs  map[*ast.AssignStmt]bool
 }
 
 func (s *flowState) clone() *flowState {
-	n := &flowState{conds: map[ast.Expr]bool{}, calls: map[*ast.CallExpr]bool{}}
+	n := &flowState{conds: map[ast.Expr]bool{}, calls: map[*ast.CallExpr]bool{}, asgs: map[*ast.AssignStmt]bool{}}
 	for k, v := range s.conds {
 		n.conds[k] = v
 	}
 	for k := range s.calls {
 		n.calls[k] = true
+	}
+	for k := range s.asgs {
+		n.asgs[k] = true
 	}
 	return n
 }
@@ -53,11 +57,15 @@ func (s *flowState) meet(o *flowState) bool {
 		s.top = false
 		s.conds = map[ast.Expr]bool{}
 		s.calls = map[*ast.CallExpr]bool{}
+		s.asgs = map[*ast.AssignStmt]bool{}
 		for k, v := range o.conds {
 			s.conds[k] = v
 		}
 		for k := range o.calls {
 			s.calls[k] = true
+		}
+		for k := range o.asgs {
+			s.asgs[k] = true
 		}
 		return true
 	}
@@ -71,6 +79,12 @@ func (s *flowState) meet(o *flowState) bool {
 	for k := range s.calls {
 		if !o.calls[k] {
 			delete(s.calls, k)
+			ch = true
+		}
+	}
+	for k := range s.asgs {
+		if !o.asgs[k] {
+			delete(s.asgs, k)
 			ch = true
 		}
 	}
@@ -180,7 +194,7 @@ func NewFlow(info *types.Info, body *ast.BlockStmt) *Flow {
 	for i := range f.in {
 		f.in[i] = &flowState{top: true}
 	}
-	f.in[0] = &flowState{conds: map[ast.Expr]bool{}, calls: map[*ast.CallExpr]bool{}}
+	f.in[0] = &flowState{conds: map[ast.Expr]bool{}, calls: map[*ast.CallExpr]bool{}, asgs: map[*ast.AssignStmt]bool{}}
 	for _, b := range f.CFG.Blocks {
 		for i, nd := range b.Nodes {
 			f.loc[nd] = nodeLoc{b, i}
@@ -200,6 +214,9 @@ func NewFlow(info *types.Info, body *ast.BlockStmt) *Flow {
 		for _, nd := range b.Nodes {
 			for _, c := range callsInNode(nd) {
 				out.calls[c] = true
+			}
+			if as, ok := nd.(*ast.AssignStmt); ok {
+				out.asgs[as] = true
 			}
 		}
 		for si, s := range b.Succs {
@@ -624,4 +641,27 @@ func (f *Flow) CanReach(a, b ast.Node) bool {
 		work = append(work, x.Succs...)
 	}
 	return false
+}
+
+// AssignsPassedAt returns the assignment statements executed on every path
+// before the CFG node.
+func (f *Flow) AssignsPassedAt(n ast.Node) map[*ast.AssignStmt]bool {
+	l, ok := f.loc[n]
+	if !ok {
+		return nil
+	}
+	st := f.in[l.b.Index]
+	if st.top {
+		return nil
+	}
+	out := map[*ast.AssignStmt]bool{}
+	for k := range st.asgs {
+		out[k] = true
+	}
+	for i := 0; i < l.idx; i++ {
+		if as, ok := l.b.Nodes[i].(*ast.AssignStmt); ok {
+			out[as] = true
+		}
+	}
+	return out
 }
